@@ -3,8 +3,9 @@ from . import core
 
 
 def _all():
-    from . import p_codec
-    return [p_codec.C11(), p_codec.C10()]
+    from . import p_codec, p_worker
+    return [p_codec.C11(), p_codec.C10(), p_worker.C18(), p_worker.C01(), p_worker.C07(), p_worker.C08(),
+            p_worker.C02(), p_worker.C15(), p_worker.C16()]
 
 
 def get(pid):
